@@ -379,3 +379,43 @@ def formats(repo):
             'Definition pdb_atom_args : list string := [%s].' % '; '.join(coq_str(a) for a in atom_args),
             'Definition gro_atom_args : list string := [%s].' % '; '.join(coq_str(a) for a in gro_args)]
     return 'Formats.v', '\n'.join(text) + '\n'
+
+
+# ---------------------------------------------------------------------------
+# C17: DSSP -> Martini tables
+@extractor
+def dssp_tables(repo):
+    tree = ast.parse(open(os.path.join(repo, 'vermouth', 'dssp', 'dssp.py')).read())
+    ss = [n.value for n in tree.body if isinstance(n, ast.Assign) and len(n.targets) == 1
+          and isinstance(n.targets[0], ast.Name) and n.targets[0].id == 'SS_CG']
+    if len(ss) != 1 or not isinstance(ss[0], ast.Dict):
+        raise ExtractError('SS_CG')
+    table = []
+    for k, v in zip(ss[0].keys, ss[0].values):
+        a, b = _const_str(k), _const_str(v)
+        if a is None or b is None or len(a) != 1 or len(b) != 1:
+            raise ExtractError('SS_CG entry')
+        table.append((a, b))
+    f = _find_func(tree, 'convert_dssp_to_martini')
+    pats = [n.value for n in ast.walk(f) if isinstance(n, ast.Assign) and isinstance(n.targets[0], ast.Name)
+            and n.targets[0].id == 'patterns']
+    if not (len(pats) == 1 and isinstance(pats[0], ast.Call) and _call_name(pats[0]) == 'OrderedDict'
+            and len(pats[0].args) == 1 and isinstance(pats[0].args[0], ast.List)):
+        raise ExtractError('patterns')
+    patterns = []
+    for elt in pats[0].args[0].elts:
+        if not (isinstance(elt, ast.Tuple) and len(elt.elts) == 2):
+            raise ExtractError('pattern tuple')
+        p, r = _const_str(elt.elts[0]), _const_str(elt.elts[1])
+        if p is None or r is None:
+            raise ExtractError('pattern literal')
+        patterns.append((p, r))
+    # the literals of the wildcard construction: 'H' if x == 'H' else '.', and the flanking '.'
+    consts = sorted({n.value for n in ast.walk(f) if isinstance(n, ast.Constant) and isinstance(n.value, str) and len(n.value) == 1})
+    if consts != ['.', 'H']:
+        raise ExtractError('wildcard literals %r' % consts)
+    text = ['(* GENERATED by vlib/extract.py from /repo: do not edit *)',
+            'From Coq Require Import List String Ascii.', 'Import ListNotations.',
+            'Definition ss_cg : list (ascii * ascii) := [%s].' % '; '.join('(%s, %s)' % (_coq_char(a), _coq_char(b)) for a, b in table),
+            'Definition helix_patterns : list (string * string) := [%s].' % '; '.join('(%s, %s)' % (coq_str(p), coq_str(r)) for p, r in patterns)]
+    return 'Dssp.v', '\n'.join(text) + '\n'
